@@ -1,22 +1,258 @@
+// bvcheck decides the structural clauses of properties C01..C20 of apache/skywalking-banyandb from the
+// source under -repo, without running it. See /verif/DESIGN.md.
 package main
 
 import (
+	"crypto/sha256"
+	"encoding/hex"
+	"encoding/json"
+	"flag"
 	"fmt"
+	"io"
 	"os"
+	"path/filepath"
+	"runtime/debug"
+	"sort"
+	"strconv"
+	"strings"
+	"sync"
+	"syscall"
+	"time"
 
+	"bvcheck/internal/core"
 	"bvcheck/internal/load"
+	"bvcheck/internal/rules"
 )
 
 func main() {
-	p, err := load.Load(load.Options{Repo: "/repo", BinDir: "/verif/bin"})
-	if err != nil {
-		fmt.Println("ERR", err)
+	prop := flag.String("prop", "", "property id (C01..C20) or 'all'")
+	tier := flag.String("tier", "quick", "quick|thorough")
+	repo := flag.String("repo", "/repo", "repository root")
+	verif := flag.String("verif", "/verif", "verification root")
+	list := flag.Bool("list", false, "list properties")
+	nocache := flag.Bool("nocache", os.Getenv("VERIF_NOCACHE") == "1", "ignore cached verdicts")
+	only := flag.String("only", "", "analyse only these comma-separated properties (no cache); for self-tests")
+	replay := flag.String("replay", "", "re-evaluate the obligation named in a violation file")
+	genManifest := flag.Bool("gen-manifest", false, "print MANIFEST.json for the registered properties")
+	flag.Parse()
+	if *genManifest {
+		os.Stdout.Write(rules.Manifest())
+		return
+	}
+	if t := os.Getenv("VERIF_TIER"); t == "quick" || t == "thorough" {
+		*tier = t
+	}
+	if *list {
+		for _, p := range rules.All {
+			fmt.Println(p.ID, p.Title)
+		}
+		return
+	}
+	if *replay != "" {
+		b, err := os.ReadFile(*replay)
+		if err != nil {
+			fmt.Println(err)
+			os.Exit(2)
+		}
+		var v struct {
+			Property string `json:"property"`
+			Tier     string `json:"tier"`
+		}
+		json.Unmarshal(b, &v)
+		*prop, *tier, *nocache = v.Property, v.Tier, true
+	}
+	seed, _ := strconv.ParseInt(os.Getenv("VERIF_SEED"), 10, 64)
+	byID := map[string]*core.Property{}
+	for _, p := range rules.All {
+		byID[p.ID] = p
+	}
+	var want []*core.Property
+	if *prop == "all" {
+		want = rules.All
+	} else if p, ok := byID[*prop]; ok {
+		want = []*core.Property{p}
+	} else {
+		fmt.Println("unknown property", *prop)
 		os.Exit(2)
 	}
-	fmt.Println(len(p.Roots), p.Timings, len(p.TypeErrs))
-	for _, e := range p.TypeErrs {
-		fmt.Println(e)
+	known, err := core.LoadKnown(filepath.Join(*verif, "KNOWN_FINDINGS.txt"))
+	if err != nil {
+		fmt.Println("known findings:", err)
+		os.Exit(2)
 	}
-	fmt.Println(p.Func("banyand/measure", "(*tsTable).mustAddMemPart"))
-	fmt.Println(len(p.ModuleFuncs("banyand", "pkg")))
+	onlySet := map[string]bool{}
+	for _, id := range strings.Split(*only, ",") {
+		if id != "" {
+			onlySet[id] = true
+		}
+	}
+	results, err := analyse(*repo, *verif, *tier, *nocache, onlySet)
+	if err != nil {
+		fmt.Println("analysis failed:", err)
+		for _, p := range want {
+			fmt.Printf("VIOLATION property=%s replay=%s\n", p.ID, "analysis-failed")
+		}
+		os.Exit(1)
+	}
+	exit := 0
+	cmdline := strings.Join(os.Args, " ")
+	for _, p := range want {
+		r, ok := results[p.ID]
+		if !ok {
+			fmt.Println("no result for", p.ID)
+			exit = 1
+			continue
+		}
+		if e := core.Emit(r, p, known, filepath.Join(*verif, "evidence"), seed, cmdline); e > exit {
+			exit = e
+		}
+	}
+	os.Exit(exit)
+}
+
+// treeHash hashes every input of the analysis: the repository's Go and proto sources, module files, the
+// checker binary, the tier.
+func treeHash(repo, tier string) (string, error) {
+	h := sha256.New()
+	var files []string
+	err := filepath.Walk(repo, func(p string, info os.FileInfo, err error) error {
+		if err != nil {
+			return nil
+		}
+		if info.IsDir() {
+			n := info.Name()
+			if n == ".git" || n == "node_modules" || (n == "ui" && filepath.Dir(p) == repo) {
+				return filepath.SkipDir
+			}
+			return nil
+		}
+		if strings.HasSuffix(p, ".go") || strings.HasSuffix(p, ".proto") || strings.HasSuffix(p, "go.mod") || strings.HasSuffix(p, "go.sum") {
+			files = append(files, p)
+		}
+		return nil
+	})
+	if err != nil {
+		return "", err
+	}
+	sort.Strings(files)
+	for _, f := range files {
+		b, err := os.ReadFile(f)
+		if err != nil {
+			continue
+		}
+		fmt.Fprintf(h, "%s\x00%d\x00", f, len(b))
+		h.Write(b)
+	}
+	if exe, err := os.Executable(); err == nil {
+		if f, err := os.Open(exe); err == nil {
+			io.Copy(h, f)
+			f.Close()
+		}
+	}
+	for _, t := range []string{"pbgen", "protoc-gen-go"} {
+		if exe, err := os.Executable(); err == nil {
+			if b, err := os.ReadFile(filepath.Join(filepath.Dir(exe), t)); err == nil {
+				h.Write(b)
+			}
+		}
+	}
+	fmt.Fprintf(h, "tier=%s files=%d", tier, len(files))
+	return hex.EncodeToString(h.Sum(nil))[:24], nil
+}
+
+// analyse returns the verdicts of all properties for the current tree, from the cache when the tree,
+// checker and tier are unchanged, otherwise by running the whole analysis once (under a file lock, so
+// concurrent invocations for different properties share one run).
+func analyse(repo, verif, tier string, nocache bool, only map[string]bool) (map[string]core.Result, error) {
+	hash, err := treeHash(repo, tier)
+	if err != nil {
+		return nil, err
+	}
+	cacheRoot := filepath.Join(verif, ".cache")
+	os.MkdirAll(cacheRoot, 0o755)
+	lock, err := os.OpenFile(filepath.Join(cacheRoot, "lock"), os.O_CREATE|os.O_RDWR, 0o644)
+	if err == nil {
+		syscall.Flock(int(lock.Fd()), syscall.LOCK_EX)
+		defer func() { syscall.Flock(int(lock.Fd()), syscall.LOCK_UN); lock.Close() }()
+	}
+	cfile := filepath.Join(cacheRoot, hash+".json")
+	if !nocache && len(only) == 0 {
+		if b, err := os.ReadFile(cfile); err == nil {
+			var m map[string]core.Result
+			if json.Unmarshal(b, &m) == nil && len(m) == len(rules.All) {
+				return m, nil
+			}
+		}
+	}
+	t0 := time.Now()
+	exe, _ := os.Executable()
+	p, err := load.Load(load.Options{Repo: repo, BinDir: filepath.Dir(exe)})
+	if err != nil {
+		return nil, err
+	}
+	if len(p.TypeErrs) > 0 {
+		fmt.Printf("note: %d type error(s) in module packages; rules whose decisive facts are untyped become undecided\n", len(p.TypeErrs))
+		for i, e := range p.TypeErrs {
+			if i < 10 {
+				fmt.Println("  ", e)
+			}
+		}
+	}
+	shared := time.Since(t0).Seconds()
+	out := map[string]core.Result{}
+	var mu sync.Mutex
+	var wg sync.WaitGroup
+	sem := make(chan struct{}, 8)
+	for _, pr := range rules.All {
+		if len(only) > 0 && !only[pr.ID] {
+			continue
+		}
+		wg.Add(1)
+		go func(pr *core.Property) {
+			defer wg.Done()
+			sem <- struct{}{}
+			defer func() { <-sem }()
+			c := &core.Ctx{P: p, Tier: tier, Prop: pr.ID}
+			t1 := time.Now()
+			pan := ""
+			func() {
+				defer func() {
+					if r := recover(); r != nil {
+						pan = fmt.Sprintf("%v\n%s", r, debug.Stack())
+					}
+				}()
+				c.Stat("packages_loaded", len(p.Roots))
+				c.Stat("type_errors", len(p.TypeErrs))
+				pr.Run(c)
+			}()
+			r := core.Finalize(c)
+			r.Panic = pan
+			r.WallS = shared + time.Since(t1).Seconds()
+			mu.Lock()
+			out[pr.ID] = r
+			mu.Unlock()
+		}(pr)
+	}
+	wg.Wait()
+	for id, r := range out {
+		r.Timings = map[string]float64{}
+		for k, v := range p.Timings {
+			r.Timings[k] = v
+		}
+		out[id] = r
+	}
+	// prune old cache entries, then store
+	if ents, err := os.ReadDir(cacheRoot); err == nil {
+		for _, e := range ents {
+			if strings.HasSuffix(e.Name(), ".json") {
+				if info, err := e.Info(); err == nil && time.Since(info.ModTime()) > 6*time.Hour {
+					os.Remove(filepath.Join(cacheRoot, e.Name()))
+				}
+			}
+		}
+	}
+	if b, err := json.Marshal(out); err == nil && len(only) == 0 {
+		os.WriteFile(cfile, b, 0o644)
+	}
+	return out, nil
 }
